@@ -39,3 +39,7 @@ VArg *g_fe_args; CLT *g_fe_list; int g_fe_n; _Bool g_fe_ret; int g_cb_n; VArg *g
 #ifdef UNIT_CALLBACKLIST
 int g_cbk_n; Callback *g_cbk_f; int g_cbk_arg; Node *g_cbk_h; int g_cci_n, g_cci_arg; _Bool g_cci_ret, g_vis_ret;
 #endif
+#ifdef UNIT_ANYDATA
+int g_small_ctor, g_small_dtor, g_big_ctor, g_big_dtor;
+const char g_tag_funcFreeObject_Small, g_tag_funcFreeObject_LD, g_tag_funcFreeObject_Big, g_tag_funcMoveConstruct_Small, g_tag_funcMoveConstruct_LD, g_tag_funcMoveConstruct_Big, g_tag_funcDeleteObject_Small, g_tag_funcDeleteObject_Big;
+#endif
